@@ -1,0 +1,29 @@
+/*
+ * SPDX-License-Identifier: Apache-2.0 OR LGPL-2.1-or-later
+ */
+
+//! Verification hooks, compiled only with `--cfg sux_verif`.
+//!
+//! [`sched_point`] is called immediately before every atomic memory operation
+//! of the atomic bit vectors; a verification harness can install a callback
+//! with [`set_sched_hook`] to serialize threads and drive chosen interleavings.
+//! Without a callback the calls do nothing.
+
+use std::sync::RwLock;
+
+type Hook = Box<dyn Fn(u32) + Send + Sync>;
+
+static SCHED_HOOK: RwLock<Option<Hook>> = RwLock::new(None);
+
+/// Installs (or removes) the scheduling callback.
+pub fn set_sched_hook(hook: Option<Hook>) {
+    *SCHED_HOOK.write().unwrap() = hook;
+}
+
+/// Called before each atomic memory operation; `site` identifies the call site.
+#[inline]
+pub fn sched_point(site: u32) {
+    if let Some(hook) = SCHED_HOOK.read().unwrap().as_ref() {
+        hook(site)
+    }
+}
